@@ -501,8 +501,14 @@ impl<'tcx> Cx<'tcx> {
                     ("place_ty", s(self.ty(place.ty(&body.local_decls, tcx).ty))),
                     ("target", bbn(target)),
                 ]),
-                TerminatorKind::Call { func, args, destination, target, fn_span, .. } => {
+                TerminatorKind::Call { func, args, destination, target, fn_span, unwind, .. } => {
                     let mut cv = vec![("k", s("call"))];
+                    cv.push(("unwind", match unwind {
+                        mir::UnwindAction::Cleanup(bb) => bbn(bb),
+                        mir::UnwindAction::Continue => s("continue"),
+                        mir::UnwindAction::Unreachable => s("unreachable"),
+                        mir::UnwindAction::Terminate(_) => s("terminate"),
+                    }));
                     let fty = func.ty(&body.local_decls, tcx);
                     match fty.kind() {
                         ty::FnDef(did, gargs) => cv.push(("callee", self.fn_ref(env, *did, gargs))),
